@@ -446,7 +446,8 @@ EXTRA6 = {
            "error at the first acknowledgement nobody takes.",
     "C10": " The manager's own Start runs (status ticker goroutine); action minute (a quiet minute of virtual time); capacity probes "
            "before start; the mux-manager and provider locks park at the macro level, a goroutine waiting for a lock nobody releases "
-           "is a verdict.",
+           "is a verdict. Micro level: the scenario real-receiver-lifetime-ends-during-accept is explored bound by bound (one preemption "
+           "less than the tier's bound is the declared, completed bound; the tier's bound with the remaining budget).",
     "C11": " The manager's own Start runs (status ticker goroutine); oracle: an RPC issued when no session is left is reported "
            "Unavailable, it does not wait.",
     "C12": " An empty batch in front of the batch on the path.",
